@@ -86,6 +86,25 @@ func runSweeps(tier string, seed int64, langs []int, perPair int) {
 	}
 }
 
+// runLongSweeps: all 2048 last words after prefixes far longer than any accepted sentence (256k + 11, 14, ... words:
+// a count that wraps in a narrow integer looks acceptable): none may be accepted
+func runLongSweeps(tier string, seed int64) {
+	r := newRng(seed, "longsweep")
+	counts := []int{268, 271, 274, 277, 280, 524}
+	if tier == "thorough" {
+		counts = append(counts, 256+24, 512+15, 768+18, 1024+21, 65536+12, 65536+24)
+	}
+	for _, n := range counts {
+		maybeCut()
+		lang := r.intn(10)
+		prefix := make([]int, n-1)
+		for i := range prefix {
+			prefix[i] = r.intn(2048)
+		}
+		recSweep(prefix, lang)
+	}
+}
+
 // uniformSentences: one word repeated (index 0, 1, the last ones, powers of two, random) at every count around
 // the accepted ones - the big integer of the validator is then zero, all ones, or a single repeated pattern
 func runUniform(seed int64, langs []int, cls string) {
@@ -288,6 +307,30 @@ func runDefects(tier string, seed int64, langs []int) {
 				c := append([]string(nil), ws...)
 				c[p] = []string{"zzzzzz", "notaword", c[p] + "q", "0", "éé"}[r.intn(5)]
 				recCheck(strings.Join(c, " "), L, Event{"cls": "unknown1"})
+			}
+			// one word short of the count, with a separator where the missing word would be (an empty token at the end,
+			// at the start, in the middle): the count of separators says n, the words say n-1
+			for _, sp := range []string{" ", "\u3000"} {
+				short := ws[:w-1]
+				recCheck(strings.Join(short, " ")+sp, L, Event{"cls": "emptytoken"})
+				recCheck(sp+strings.Join(short, " "), L, Event{"cls": "emptytoken"})
+				k := 1 + r.intn(w-2)
+				recCheck(strings.Join(short[:k], " ")+" "+sp+strings.Join(short[k:], " "), L, Event{"cls": "emptytoken"})
+			}
+			// ... chosen so that word 0 of the list in the empty place would make the sentence valid
+			for try := 0; try < 4000; try++ {
+				e0 := r.bytes(size)
+				cs := size / 4
+				e0[size-1] &^= byte(1<<uint(11-cs)) - 1 // the entropy bits of the last word are zero
+				ix := indicesOf(e0)
+				if ix[len(ix)-1] != 0 {
+					continue
+				}
+				pre := sentence(ix[:len(ix)-1], lang, " ")
+				recCheck(pre+" ", L, Event{"cls": "emptytoken0"})
+				recCheck(pre+"\u3000", L, Event{"cls": "emptytoken0"})
+				recCheck(" "+pre, L, Event{"cls": "emptytoken0"})
+				break
 			}
 			// a list word with an invisible character inside or after it (joiners, soft hyphen, variation selector, BOM):
 			// not a list word
